@@ -144,6 +144,21 @@ chk(
     "DESIGN.md 4 C05",
 )
 
+chk(
+    "C07",
+    "invariant oracle (canonical form before/after, identity-disjointness of all reachable mutable objects) over the finite grid of every shipped middleware configuration x libraries with every block kind, and seeded Hypothesis stacks of 1-3 configurations",
+    "Exploration: every one of the 49 middleware configurations (all 16 shipped classes x option sets, constructed with allow_inplace_modification=False; block sorter always) x 7 documents x 6 preparation stacks (which add list / NameParts values and MiddlewareErrorBlocks for invalid names and raising converters to libraries that already hold plain, duplicate-key and duplicate-field failed blocks), plus random stacks of 1-3 configurations on random / damaged grammar documents: after every stage the stage input and the original library must have an unchanged canonical form (also when a type-incompatible stage raises), the result must share no mutable object (library, lists, dicts, blocks, field lists, fields, metadata, NameParts) with its input or with the original, the library must be deep-copyable, and write_string (default stack, 4+ formats) must leave library and format unchanged and return identical text when called twice.",
+    "Trusted: canon()/mutable_ids() (validated against deepcopy on every case: canon(deepcopy(x)) == canon(x) or exit 2); the value-type tracker that decides whether a stage is type-compatible (exceptions from incompatible stages are allowed, the input must still be untouched).",
+    "DESIGN.md 4 C07",
+)
+chk(
+    "C18",
+    "round trip decode(encode(t)) over a bounded-exhaustive character-pair enumeration, atom grids and seeded Hypothesis texts; stage-wise scope/type invariants and error-containment oracle over constructed libraries x every constructor option",
+    "Exploration: every 1- and 2-character string over the 202-character alphabet of the quantifier (fixed in advance: ASCII printable without '\"' and '^', tab, newline, accented Latin letters; ligature sequences excluded), URL and $...$ atoms in 20 contexts, and random token strings up to 40 tokens, as field value, @string value and NameParts parts, under default / keep_math=False / enclose_urls=False: decode(encode(t)) == t. Scope: constructed libraries with every block kind and value type (str, int, list, NameParts, lists of NameParts, markers) x 30 encoder/decoder sequences over every constructor option (keep_math, enclose_urls, keep_braced_groups, keep_math_mode, custom converters raising on a marker) x in-place/copy, checked stage by stage: classes, keys, entry types, field keys/order, raw, start lines, non-text values and non-entry/non-string blocks unchanged, text values stay str, String.value stays str, NameParts keep list-of-str parts, a raising converter gives a MiddlewareErrorBlock holding the entry with the failing value unaltered, never an exception.",
+    "Trusted: the alphabet definition; pylatexenc 2.11 as installed. Known findings F-11b (greedy math rule, >= 3 dollars or '%' between two dollars) and F-21 (URL with TeX specials under enclose_urls) are excluded by predicates and reported as KNOWN-FINDING.",
+    "DESIGN.md 4 C18",
+)
+
 ALL = ["C%02d" % i for i in range(1, 21)]
 NOT_YET = "check not built yet in this revision of /verif (see DESIGN.md section 4 for its design); not claimed"
 
